@@ -220,7 +220,9 @@ func propC04(c C04Case) error {
 	}
 	wantRaw := strings.TrimSpace(c.text())
 	wantTS := time.Unix(c.Sec, int64(c.Ms)*1_000_000).UTC()
-	parseOthers(1) // a parsed header must not depend on what is parsed afterwards
+	if err := parseOthers(1); err != nil { // a parsed header must not depend on what is parsed afterwards, nor the other way round
+		return err
+	}
 	for i, x := range []*auparse.AuditMessage{m, m2} {
 		who := []string{"ParseLogLine", "Parse"}[i]
 		if x.RecordType != typ {
